@@ -50,6 +50,9 @@ def make_doc():
             "parameters": [
                 {"name": "x", "in": "query", "required": True, "schema": {"type": "integer", "enum": [1]}},
                 {"name": "X-H", "in": "header", "required": True, "schema": {"type": "string", "enum": ["v"]}},
+                # (given explicitly in half of the observations: the rest of the container is still generated, under the same hooks)
+                {"name": "given", "in": "query", "required": False, "schema": {"type": "string", "enum": ["g"]}},
+                {"name": "X-G", "in": "header", "required": False, "schema": {"type": "string", "enum": ["g"]}},
             ],
             "responses": {"200": {"description": "ok"}},
         }
@@ -309,7 +312,9 @@ class World:
 
         operation = self.schema[op["path"]][op["method"].upper()]
         self.calls.clear()
-        case = examples.generate_one(operation.as_strategy(hooks=self.test_disp, auth_storage=self.test_auth))
+        # part of the query and of the headers may come from the user (overrides, `as_strategy(query=...)`, partial examples)
+        explicit = {"query": {"given": "g"}, "headers": {"X-G": "g"}} if op["method"] in ("get", "put") else {}
+        case = examples.generate_one(operation.as_strategy(hooks=self.test_disp, auth_storage=self.test_auth, **explicit))
         markers = {k for k in (case.query or {}) if k.startswith("h")} | {k for k in (case.headers or {}) if k.startswith("h")}
         called = {idx for idx, lbl in self.calls if lbl == (op["method"], op["path"])}
         foreign = {(idx, lbl) for idx, lbl in self.calls if lbl != (op["method"], op["path"])}
